@@ -475,10 +475,12 @@ class ScipyMinimizeAlgorithm(
             n: state.get_tensor_value(n)[0] for n in state.dag.individual_variable_names
         }
 
+        x0 = scaling.scaling(initial_point)
+        initial_loss = self.obj_no_jac(x0, state, scaling)
         res = minimize(
             obj,
             jac=with_jac,
-            x0=scaling.scaling(initial_point),
+            x0=x0,
             args=(state, scaling),
             **self.scipy_minimize_params,
         )
@@ -486,6 +488,11 @@ class ScipyMinimizeAlgorithm(
         # TODO/WIP: we may want to return residuals MAE or RMSE instead (since nll is not very interpretable...)
         # loss = model.compute_canonical_loss_tensorized(patient_dataset, pyt_individual_params)
         loss = self.obj_no_jac(res.x, state, scaling)
+        if not loss <= initial_loss:
+            # never return a point that is worse than the starting point, nor a non-finite one
+            # (the optimizer may wander where the objective is nan / inf, e.g. with a degenerate model)
+            pyt_individual_params = scaling.unscaling(x0)
+            loss = self.obj_no_jac(x0, state, scaling)
 
         if not res.success and self.logger:
             # log full results if optimization failed
